@@ -312,7 +312,10 @@ func flattenNPMDeps(deps *pb.Requirements_NPM_Dependencies) []RequirementVersion
 				// dependency on the actual name and keep the
 				// alias in the KnownAs attribute.
 				typ.AddAttr(dep.KnownAs, d.Name)
-				if i := strings.LastIndex(r, "@"); i >= 0 {
+				// A leading @ is the scope of the name, not the
+				// separator; without a version any will do.
+				name, req = r, ""
+				if i := strings.LastIndex(r, "@"); i > 0 {
 					name = r[:i]
 					req = r[i+1:]
 				}
